@@ -14,7 +14,7 @@ ID = "C05"
 LEVEL = "exploration"
 RULE = ("inputs = every concrete Sid from the full product of per-key value sets (2-3 closed-vocabulary members incl. all "
         "mapped values, digit boundary instances, names containing the file-name separator / a dot / a dash / a name "
-        "spelled like a mapped folder) for every configured type, plus every member of every closed vocabulary once at its "
+        "spelled like a mapped folder or like the Sid-side value of a mapped key) for every configured type, plus every member of every closed vocabulary once at its "
         "position (alias names as plain values included), plus untyped Sids; x every path configuration and the "
         "default; x two import orders (first-touched configuration). distinct = distinct (sid, import order); "
         "non-trivial = the type has a path template in the configuration.")
@@ -191,6 +191,10 @@ def run_shard(sh):
             if pv not in extra:
                 extra.append(pv)
     extra = extra[-1:]  # a name spelled like a mapped folder (e.g. PUBLISH)
+    for k, m in prefs[names[0]].mapping.items():   # ... and names spelled like the Sid-side values of the mapped keys (hamlet, a, s, w, p)
+        for sv in m.values():
+            if isinstance(sv, str) and sv not in extra:
+                extra.append(sv)
     # import order: touch the 'first' configuration before anything else resolves a path
     order = [sh["first"]] + [n for n in names if n != sh["first"]]
     probe = universe.one_per_type(ref)
